@@ -448,6 +448,9 @@ def run(ck):
     share_clauses(ck, "c15", {
         "C15.c": ("C04.h", "a transfer with copy_estimator holds its own copy of the wrapped model whatever the other options: its outputs do not change when the source model is refitted, and equal those of its pickled or cloned copies"),
     }, keep=lambda o: "copy" in (o.statement or "") + (o.detail or ""))
+    share_clauses(ck, "c08", {
+        "C08.e": ("C04.i", "the bucket a row is sent to at predict time is decided by the row alone (mask and key rules of the routing function): it does not depend on the row's position in the batch"),
+    }, keep=lambda o: "transform_bins" in (o.function or ""))
     ck.extra["pickling_classes"] = check_f(ck, repo)
     ck.extra["pairing_instances"] = na
     ck.extra["exemptions"] = {f"{k[0]}.{k[1]}": v for k, v in B_EXEMPT_ATTR.items()}
